@@ -87,7 +87,7 @@ theorem spec_render_commit (ns : NsMap) (s : Sel) (hs : s.ok ns = true) :
       rw [hr] at h
       simp [parseCore, prepare, prepAcc, run, finishCore, bind, Except.bind, pure, Except.pure] at h
     | cons t ts => rfl
-  obtain ⟨used, hu⟩ := usedNamespaces_ok ns (s.items ns) (Sel.items_allOk ns s hs)
+  obtain ⟨used, hu⟩ := usedNamespaces_ok ns (s.items ns)
   exact ⟨used, by simp [parseSel, hne, spec_render ns s hs, commit, hu, bind, Except.bind, pure, Except.pure]⟩
 
 /-- **the specificity is what the property says**: `b` = number of ID selectors, `c` = number of class and
@@ -227,18 +227,17 @@ theorem pseudo_escape_witness_round_trips :
       = some (0, 0, 1, kfTokens.flatMap (·.val)) := by
   decide
 
-/-! ## known finding (machine-checked at the witness): `a b\ ` does not survive a round trip
+/-! ## the former known finding `C16-escaped-space-eats-descendant`, now positive at its witness
 
-`kfSpace₁` are the tokens of `a b\ ` (the name of the second type selector ends with an escaped space), `kfSpace₂`
-the tokens of its serialisation `ab\ ` (their values concatenate to it): `Out.append` removes the white space of
-the descendant combinator because the next value ends with a space. -/
-def kfSpace₁ : List Tok := [⟨.ident, [97]⟩, ⟨.s, [32]⟩, ⟨.ident, [98, 92, 32]⟩]
-def kfSpace₂ : List Tok := [⟨.ident, [97, 98, 92, 32]⟩]
+`kfSpace` are the tokens of `a b\ ` (the name of the second type selector ends with an escaped space): the
+serialisation keeps the white space of the descendant combinator — it is the concatenation of those very token
+values (with the white space as one space), specificity `(0,0,0,2)`. -/
+def kfSpace : List Tok := [⟨.ident, [97]⟩, ⟨.s, [32]⟩, ⟨.ident, [98, 92, 32]⟩]
 
-theorem known_escaped_space_eats_descendant :
-    (parseSel [] kfSpace₁).toOption.join.map (fun r => (r.b, r.c, r.d, r.text)) = some (0, 0, 2, [97, 98, 92, 32]) ∧
-    kfSpace₂.flatMap (·.val) = [97, 98, 92, 32] ∧
-    (parseSel [] kfSpace₂).toOption.join.map (fun r => (r.b, r.c, r.d)) = some (0, 0, 1) := by
+/-- TEST at the witness of the fixed finding (evaluation, one input) -/
+theorem escaped_space_witness_round_trips :
+    (parseSel [] kfSpace).toOption.join.map (fun r => (r.b, r.c, r.d, r.text))
+      = some (0, 0, 2, kfSpace.flatMap (·.val)) := by
   decide
 
 /-! ## non-vacuity: the hypotheses are satisfiable (a rich written selector is `ok`), and a test by evaluation -/
